@@ -16,9 +16,12 @@ import GormModel.Lemmas.CallbacksGuard
 import GormModel.Gen.Pipelines
 import GormModel.Gen.CallbackFacts
 import GormModel.Lemmas.CallbackBuilder
+import GormModel.Lemmas.CallbackExec
+import GormModel.Gen.CallbackExecFacts
 namespace Gorm
 open Gen
 open CbL
+open Reent
 
 /-- the built-in registrations of one pipeline as model operations (handler id = position) -/
 def builtinOps (regs : List CbReg) : List RegOp :=
@@ -612,5 +615,116 @@ theorem C17_builder_reuse_partial (T : BuilderFacts) (fs : List (Nat × Finish))
       rw [hcells y hy]
       refine ⟨?_, hy'.2⟩
       simp [PtrTable.finish, hy'.1, hnotin y hy]
+
+/-! ## ROUND 5 — RE-ENTRANCE: registration calls made from INSIDE a running callback
+
+  `processor.Execute` walks the compiled chain with `for _, f := range p.fns { f(db) }`.  Go evaluates the range
+  expression once, and `compile` never writes through the old slice (it installs the fresh slice `sortCallbacks`
+  built from nil): the run in flight walks a SNAPSHOT.  Model: `Model/CallbackExec.lean` (`execute` = fold over the
+  snapshot; the callbacks' registration calls are a `Script`: handler id -> records handed to compile, on the
+  running pipeline or on another pipeline of the same DB).  Tie: the regenerated facts below + the differential
+  suite `reentrant` (harness/c17_reentrant.go: trace of every run, chain after every run, error of every inner call). -/
+
+/-- REGENERATED FACTS (extract/gen_c17_exec.go): Execute mentions `p.fns` exactly once, as the range expression of
+    `for _, f := range p.fns { f(db) }`; the field is written by `compile` only, by ONE whole-slice assignment of the
+    result of `sortCallbacks`, which builds that result from nil (`fns = append(fns, h)` only) -/
+theorem C17_execute_walks_snapshot_current_tree :
+    executeLoop = "range-snapshot" ∧ executeFnsReads = 1 ∧
+    fnsMentions = ["processor.Execute", "processor.compile"] ∧
+    fnsWriters = ["processor.compile"] ∧
+    fnsWriteStmts = ["processor.compile: p.fns, err = sortCallbacks(p.callbacks)"] ∧
+    sortFnsFresh = true := by
+  decide
+
+/-- THE RUN IN FLIGHT: whatever the callbacks register, replace or remove while the pipeline executes -- on this
+    pipeline or on another one, with or without error --, the run fires exactly the chain that was compiled when it
+    STARTED: the same handlers, each once, in that order -/
+theorem C17_run_in_flight_fires_snapshot (r : CbRepairs) (script : Script) (w : World) :
+    (w.execute r script).trace = w.run.fns := by
+  unfold World.execute
+  rw [ExecL.execute_eq]
+  simp
+
+/-- ... and it is not lost either: the registration calls made during the run act on each pipeline exactly as the
+    plain HISTORY of those calls (in firing order) made outside a run -- so the NEXT run is the run of that history,
+    and every history theorem above speaks about it; a call addressed to one pipeline never touches the other -/
+theorem C17_reentrant_calls_are_a_history (r : CbRepairs) (script : Script) (w : World) :
+    (w.execute r script).w.run = (w.run.runCbsR r (Eff.onRun (effectsOf script w.run.fns))).1 ∧
+    (w.execute r script).w.oth = (w.oth.runCbsR r (Eff.onOther (effectsOf script w.run.fns))).1 ∧
+    (w.execute r script).errs.length = (effectsOf script w.run.fns).length := by
+  unfold World.execute
+  rw [ExecL.execute_eq]
+  have h := ExecL.performAll_run r (effectsOf script w.run.fns) w
+  exact ⟨h.1, h.2, by simp [ExecL.performAll_errs_length]⟩
+
+/-- two runs: the first fires the chain compiled before it started, the second the chain of the history extended by
+    the first run's calls -/
+theorem C17_next_run_fires_new_chain (r : CbRepairs) (s1 s2 : Script) (w : World) :
+    (w.executeMany r [s1, s2]).2 =
+      [w.run.fns, (w.run.runCbsR r (Eff.onRun (effectsOf s1 w.run.fns))).1.fns] := by
+  simp only [World.executeMany]
+  rw [C17_run_in_flight_fires_snapshot, C17_run_in_flight_fires_snapshot, (C17_reentrant_calls_are_a_history r s1 w).1]
+
+/-- the state after a re-entrant run, in terms of `RegOp` histories: if the calls addressed to the running pipeline
+    are the requests `ops`, the pipeline is in the state of the history `h ++ ops` -/
+theorem C17_after_reentrant_run_is_history (r : CbRepairs) (h ops : List RegOp) (script : Script) (oth : Proc)
+    (hops : Eff.onRun (effectsOf script (Proc.runR r {} h).1.fns) = ops.map RegOp.toCb) :
+    (World.execute r script { run := (Proc.runR r {} h).1, oth := oth }).w.run = (Proc.runR r {} (h ++ ops)).1 := by
+  rw [(C17_reentrant_calls_are_a_history r script _).1]
+  simp only []
+  rw [hops]
+  unfold Proc.runCbsR Proc.runR
+  rw [List.foldl_append, runCbsR_map_toCb]
+  rw [← runCbsR_map_toCb, ← runCbsR_map_toCb r ops]
+  exact ExecL.foldl_fst_indep r _ _ _ _
+
+/-- EXACTLY ONCE for the run in flight (the property's sentence, for a pipeline whose callbacks re-enter the
+    registration API): after a history whose last call returned no error, a run fires one handler per live name --
+    the handler `handlerOf` selects --, in the compiled order, whatever its callbacks register meanwhile -/
+theorem C17_run_in_flight_exactly_once (r : CbRepairs) (h : List RegOp) (op : RegOp) (script : Script) (oth : Proc) :
+    let res := (Proc.runR r {} h).1.applyR r op
+    res.2 = none →
+      (World.execute r script { run := res.1, oth := oth }).trace = res.1.order.filterMap (handlerOf res.1.callbacks) ∧
+      (World.execute r script { run := res.1, oth := oth }).trace.length = res.1.order.length ∧
+      res.1.order.Nodup ∧ (∀ n, n ∈ res.1.order ↔ liveName (h ++ [op]) n) := by
+  intro res hok
+  have hx := C17_exactly_once_any_tree r h op hok
+  rw [C17_run_in_flight_fires_snapshot]
+  exact ⟨hx.2.2.1, hx.2.2.2, hx.1, hx.2.1⟩
+
+/-- non-vacuity: a run whose second callback removes itself and registers a helper in front of itself -/
+example :
+    let p := (Proc.run {} [.register "a" "" "" true 0, .register "once" "" "" true 1, .register "b" "" "" true 2]).1
+    let script : Script := fun h =>
+      if h = 1 then [{ cb := (RegOp.remove "once").toCb }, { cb := (RegOp.register "helper" "b" "" true 7).toCb }] else []
+    (World.executeMany {} { run := p } [script, fun _ => []]).2 = [[0, 1, 2], [0, 7, 2]] := by
+  decide
+
+/-- WHAT AN INDEX LOOP WOULD DO (counterexample, kernel-checked; `executeIndexed` is the loop
+    `for i := 0; i < len(p.fns); i++ { p.fns[i](db) }`, not the code of the pinned tree): a run-once callback that
+    removes itself makes the run skip the callback behind it (`b` is registered, never removed, and does not run);
+    a callback that registers a helper Before itself fires twice in one run.  The snapshot loop fires `a once b c` /
+    `first lazy last`. -/
+theorem C17_indexed_loop_counterexample :
+    let p := (Proc.run {} [.register "a" "" "" true 0, .register "once" "" "" true 1, .register "b" "" "" true 2,
+      .register "c" "" "" true 3]).1
+    let once : Script := fun h => if h = 1 then [{ cb := (RegOp.remove "once").toCb }] else []
+    let q := (Proc.run {} [.register "first" "" "" true 0, .register "lazy" "" "" true 1, .register "last" "" "" true 2]).1
+    let lazy_ : Script := fun h => if h = 1 then [{ cb := (RegOp.register "helper" "lazy" "" true 7).toCb }] else []
+    (World.executeIndexed {} once 10 { run := p }).trace = [0, 1, 3] ∧
+    (World.execute {} once { run := p }).trace = [0, 1, 2, 3] ∧
+    (World.executeIndexed {} lazy_ 10 { run := q }).trace = [0, 1, 1, 2] ∧
+    (World.execute {} lazy_ { run := q }).trace = [0, 1, 2] ∧
+    (World.execute {} lazy_ { run := q }).w.run.fns = [0, 7, 1, 2] := by
+  decide
+
+/-- ... and the two loops are the same loop as long as no callback of the run touches the pipeline that is running
+    (calls addressed to ANOTHER pipeline of the DB are fine): the difference is re-entrance and nothing else -/
+theorem C17_indexed_loop_same_without_reentrance (r : CbRepairs) (script : Script)
+    (hs : ∀ h, ∀ e ∈ script h, e.other = true) (w : World) (fuel : Nat) (hf : w.run.fns.length ≤ fuel) :
+    w.executeIndexed r script fuel = w.execute r script := by
+  unfold World.executeIndexed World.execute
+  rw [ExecL.executeIndexed_eq_snapshot r script hs fuel 0 { w := w } (by simpa using hf)]
+  simp
 
 end Gorm
